@@ -276,13 +276,26 @@ def r14_3(ctx, repo):
     if row_loop is not None and isinstance(row_loop.target, ast.Tuple):
         rowvar = U(row_loop.target.elts[1])
     rv = e.get(rowvar)
-    if not isinstance(rv, Row):
-        ctx.error(rule, '%s: row loop not recognised' % construct)
-        return
+
+    def canon(x):
+        """`row[K]` / a name bound to one cell of the current row -> CELL(K)"""
+        v = ev(x, e) if x is not None else None
+        if isinstance(v, Cell):
+            return 'CELL(%s)' % v.col
+        return U(x) if x is not None else '?'
+    if isinstance(rv, Row):
+        rowframe = rv.frame
+    else:
+        cells = [v for v in e.values() if isinstance(v, Cell)]
+        keys = {c.frame.key() for c in cells}
+        if row_loop is None or len(keys) != 1:
+            ctx.error(rule, '%s: row loop not recognised' % construct)
+            return
+        rowframe = cells[0].frame
     dose_key = [a.arg for a in fn.args.args][1]
     want = {'self._id_key == %s' % label, 'notnull(%s)' % dose_key,
             'notnull(self._time_key)'}
-    got = rv.frame.filters
+    got = rowframe.filters
     if got == want:
         ctx.ok(rule, where, construct,
                'dose events of an individual come from the rows {own ID, '
@@ -307,9 +320,9 @@ def r14_3(ctx, repo):
     lv = level
     if isinstance(level, ast.Name):
         d = defs(level.id)
-        lv = d[-1].value if d else None
+        lv = d[-1].value if d else level
     if not (isinstance(lv, ast.BinOp) and isinstance(lv.op, ast.Div)
-            and U(lv.left) == '%s[%s]' % (rowvar, dose_key)
+            and canon(lv.left) == 'CELL(%s)' % dose_key
             and dur is not None and U(lv.right) == U(dur)):
         ctx.violation(
             rule, where, construct, 'dose rate',
@@ -320,8 +333,8 @@ def r14_3(ctx, repo):
     st = start
     if isinstance(start, ast.Name):
         d = defs(start.id)
-        st = d[-1].value if d else None
-    if st is None or U(st) != '%s[self._time_key]' % rowvar:
+        st = d[-1].value if d else start
+    if st is None or canon(st) != 'CELL(self._time_key)':
         ctx.violation(rule, where, construct, 'dose time',
                       'the event start is `%s`; expected the row\'s time'
                       % (U(st) if st is not None else '?'))
